@@ -251,3 +251,99 @@ func vJSONNoDup(a []byte) bool {
 func vInSet(b byte, set string) bool { return strings.IndexByte(set, b) >= 0 }
 
 func vGetwd() string { d, _ := os.Getwd(); return d }
+
+// ---- concrete JSON documents ----
+type vJNode struct {
+	kind  byte // o a s b n i f
+	keys  []string
+	vals  []vJ
+	s     string
+	b     bool
+	i     int64
+	f     float64
+}
+
+func vJObj() vJ { return vJ{&vJNode{kind: 'o'}} }
+func vJAdd(o vJ, present bool, name string, v vJ) {
+	if present {
+		o.n.keys = append(o.n.keys, name)
+		o.n.vals = append(o.n.vals, v)
+	}
+}
+func vJArr(elems []vJ) vJ  { return vJ{&vJNode{kind: 'a', vals: append([]vJ(nil), elems...)}} }
+func vJStr(s string) vJ    { return vJ{&vJNode{kind: 's', s: s}} }
+func vJBool(b bool) vJ     { return vJ{&vJNode{kind: 'b', b: b}} }
+func vJNull() vJ           { return vJ{&vJNode{kind: 'n'}} }
+func vJInt(i int64) vJ     { return vJ{&vJNode{kind: 'i', i: i}} }
+func vJFloat(f float64) vJ { return vJ{&vJNode{kind: 'f', f: f}} }
+func vFinite(f float64) bool { return !math.IsNaN(f) && !math.IsInf(f, 0) }
+func vJBytes(v vJ) []byte {
+	var buf bytes.Buffer
+	vJWrite(&buf, v)
+	return buf.Bytes()
+}
+func vJWrite(buf *bytes.Buffer, v vJ) {
+	switch v.n.kind {
+	case 'o':
+		buf.WriteByte('{')
+		for i, k := range v.n.keys {
+			if i > 0 {
+				buf.WriteByte(',')
+			}
+			kb, _ := json.Marshal(k)
+			buf.Write(kb)
+			buf.WriteByte(':')
+			vJWrite(buf, v.n.vals[i])
+		}
+		buf.WriteByte('}')
+	case 'a':
+		buf.WriteByte('[')
+		for i, e := range v.n.vals {
+			if i > 0 {
+				buf.WriteByte(',')
+			}
+			vJWrite(buf, e)
+		}
+		buf.WriteByte(']')
+	case 's':
+		b, _ := json.Marshal(v.n.s)
+		buf.Write(b)
+	case 'b':
+		if v.n.b {
+			buf.WriteString("true")
+		} else {
+			buf.WriteString("false")
+		}
+	case 'n':
+		buf.WriteString("null")
+	case 'i':
+		buf.WriteString(fmt.Sprint(v.n.i))
+	case 'f':
+		b, _ := json.Marshal(v.n.f)
+		buf.Write(b)
+	}
+}
+
+func vAssertJSONEq(a, b []byte, what string) {
+	var x, y map[string]json.RawMessage
+	if json.Unmarshal(a, &x) != nil || json.Unmarshal(b, &y) != nil {
+		if !vJSONEq(a, b) {
+			vFailures = append(vFailures, what+": values differ")
+		}
+		return
+	}
+	for k, v := range x {
+		w, ok := y[k]
+		if !ok || !vJSONEq(v, w) {
+			vFailures = append(vFailures, what+": member "+k+" lost or changed")
+		}
+	}
+	for k, v := range y {
+		w, ok := x[k]
+		if !ok || !vJSONEq(v, w) {
+			vFailures = append(vFailures, what+": member "+k+" appears only in the output or with another value")
+		}
+	}
+}
+
+func vBound(ok bool, msg string) {}
